@@ -553,6 +553,37 @@ def check_samples(run: Run, R, n, activation):
 
 # --------------------------------------------------------------------------- entry points
 
+def private_table_edits(run: Run):
+    """before anything else: a private table gets its own activation records and every one of them is
+    edited in place.  The standard table must still carry the tabulated cross sections and half-lives
+    (the loader sweep and every case below then run against it)."""
+    from periodictable import core, mass, density, activation
+    import periodictable as pt
+    try:
+        T = core.PeriodicTable("c14-private-%d" % (id(run) % 100000))
+        mass.init(T)
+        density.init(T)
+        activation.init(T)
+        n = 0
+        for el in T:
+            for iso in el:
+                for rec in getattr(iso, "neutron_activation", ()) or ():
+                    for k in ("thermalXS", "resonance", "Thalf_hrs", "thermalXS_parent", "resonance_parent", "Thalf_parent"):
+                        v = getattr(rec, k, None)
+                        if isinstance(v, (int, float)):
+                            setattr(rec, k, v * 3.0 + 1.0)
+                    n += 1
+        run.count(key="private-table-edits", nontrivial=True, tag="private-table-edits",
+                  sample="%d records of a private table edited in place before the sweep" % n)
+        a, b = pt.elements.Au[197].neutron_activation[0], T.Au[197].neutron_activation[0]
+        if a is b or a.__dict__ is b.__dict__:
+            run.violation("the standard table and a private table share one activation record",
+                          dict(isotope="Au-197"), clause="error", reaction=a.reaction, condition="shared-record")
+    except Exception as e:  # noqa
+        run.violation("initialising activation data of a private table raised %s" % type(e).__name__,
+                      dict(step="private-table"), clause="error", reaction="-", condition="private-table")
+
+
 def run(run: Run) -> int:
     import_repo()
     from periodictable import activation
@@ -560,6 +591,7 @@ def run(run: Run) -> int:
     R = AC.Rows()
     pool = Pool()
     try:
+        private_table_edits(run)
         loader_sweep(run, R)
         expm1_sweep(run, 2000)
         quick = run.tier == "quick"
